@@ -404,7 +404,7 @@ class Interp:
                 if b is not None and (b[0] < 0 or b[1] >= (1 << 64)):
                     ok = False
                     break
-                if not self.fmode and self.ctx.prove(z3.And(t >= 0, t < (1 << w))):
+                if self.ctx.prove(z3.And(t >= 0, t < (1 << w))):
                     continue
                 ok = False
                 break
@@ -418,7 +418,7 @@ class Interp:
             return b[0] >= 0
         key = ("nonneg", t.get_id())
         if key not in self._facts_cache:
-            self._facts_cache[key] = (not self.fmode) and self.ctx.prove(t >= 0)
+            self._facts_cache[key] = self.ctx.prove(t >= 0)
         return self._facts_cache[key]
 
     def _bitspan(self, t):
@@ -454,7 +454,7 @@ class Interp:
         hi = None
         if b is not None and b[0] >= 0:
             hi = b[1].bit_length()
-        elif not self.fmode:
+        else:
             for w in (1, 2, 3, 4, 8, 16):
                 if self.ctx.prove(z3.And(core >= 0, core < (1 << w))):
                     hi = w
